@@ -51,6 +51,14 @@ def gen_scripts(r, n):
                     sc.append(('S', i, 'r', 10 * MS, 'fcx'[i % 3]) if c == 'S' else ('E', 'fx'[i % 2]) if c == 'E' else ('L', 'max', 'f'))
                 sc += [('T', 40 * MS), ('CO',), ('S', 9, 'r', 10 * MS, 'f'), ('F', 0, 'g')]
                 cases.append((dict(base, mt=0), sc))
+    # settings through the FFI handle (try_send): refused while the queue is full, the retry must then really take effect
+    for first in ('x', 'f'):
+        for k in 'ge':
+            one = dict(base, cap=1, mt=0)
+            cases.append((one, [('E', first), ('CO',), S(0), ('D', 'x'), ('E', 'x'), ('F', 0, k), ('E', 'x'), ('T', 1 * MS), ('CO',), S(1), ('F', 1, 'g')]))
+            cases.append((one, [('E', first), ('CO',), S(0), ('D', 'x'), ('E', 'x'), ('E', 'x'), ('F', 0, k), ('D', 'x'), ('T', 1 * MS), ('E', 'x'), ('T', 1 * MS)]))
+            cases.append((one, [('E', first), ('CO',), ('D', 'x'), ('T', 1 * MS), ('E', 'x'), ('T', 1 * MS), ('D', 'x'), ('D', 'x'), ('E', 'x'), ('E', 'x'), ('T', 1 * MS)]))
+            cases.append((one, [('D', 'x'), ('E', first), ('CE',), ('D', 'x'), ('T', 20 * MS), ('E', 'x'), ('E', 'x'), ('T', 1 * MS)]))
     # a long outage in virtual time (the harness's connect loop uses the real RetryStrategy object): 45 failed connects in a row
     for rmin, rmax in ((1 * MS, 4 * MS), (1 * MS, 1000 * MS), (7, 1 * MS)):
         cfg = dict(base, mt=0, rmin=rmin, rmax=rmax)
